@@ -11,6 +11,7 @@ from pathlib import Path
 VERIF = Path(__file__).resolve().parent.parent
 TABLE = {
     # patch: (contract module, qualname substring, note substring or None)
+    "c01_builder_swaps_operands.diff": ("contracts.c02", "IRBuilder.arithmetic", None),
     "c01_not_as_ne.diff": ("contracts.c01", "lower_unary_op", None),
     "c01_input_const_boolean.diff": ("contracts.c01", "_is_boolean_producer", None),
     "c01_chain_connective_swapped.diff": ("contracts.c01", "_try_fold_logical_chain", None),
